@@ -36,6 +36,27 @@ pub fn process_memory(pid: u32) -> Result<Box<dyn FragmentedMemory>, ScanError> 
     }))
 }
 
+/// Verification hook: build the Linux process memory walker over arbitrary files standing
+/// for `/proc/pid/{maps,mem,pagemap}`, with a chosen page size.
+#[cfg(boreal_verif)]
+#[doc(hidden)]
+#[must_use]
+pub fn verif_process_memory(
+    maps_file: File,
+    mem_file: File,
+    pagemap_file: File,
+    page_size: usize,
+) -> Box<dyn FragmentedMemory> {
+    Box::new(LinuxProcessMemory {
+        maps_file: BufReader::new(maps_file),
+        mem_file,
+        pagemap_file,
+        page_size,
+        buffer: Vec::new(),
+        current_region: None,
+    })
+}
+
 // Parse a line from the /proc/pid/maps file.
 fn parse_map_line(line: &str) -> Option<MapRegion> {
     // See man proc(5). Each line is:
